@@ -64,6 +64,9 @@ pub struct Spec {
     pub tcp: bool,
     pub now: i64,
     pub remote_key: Option<u8>,
+    pub local_key: Option<u8>,
+    /// the agent was built with `.remote_addr(peer(i))`
+    pub remote_addr: Option<u8>,
     pub validated: BTreeSet<u8>,
     pub live: BTreeMap<u8, Tx>,
     /// per id: how many sends completed, and how (1 delivered, 2 timed out, 3 cancelled)
@@ -99,7 +102,7 @@ pub fn id_of_tid(t: u128) -> Option<u8> {
 
 impl Spec {
     pub fn new(tcp: bool) -> Spec {
-        Spec { tcp, now: 0, remote_key: None, validated: BTreeSet::new(), live: BTreeMap::new(), completed: BTreeMap::new(), sends: 0, pending_wait: None, diverged: false }
+        Spec { tcp, now: 0, remote_key: None, local_key: None, remote_addr: None, validated: BTreeSet::new(), live: BTreeMap::new(), completed: BTreeMap::new(), sends: 0, pending_wait: None, diverged: false }
     }
 
     /// earliest scheduled event over live transactions whose timing the statements pin
@@ -147,7 +150,7 @@ impl Spec {
 
     /// canonical, time-shift-invariant rendering for the deduplication key
     pub fn canonical(&self) -> String {
-        let mut s = format!("{}|{:?}|{:?}|", self.tcp, self.remote_key, self.validated);
+        let mut s = format!("{}|{:?}|{:?}|{:?}|{:?}|", self.tcp, self.remote_key, self.local_key, self.remote_addr, self.validated);
         for (id, t) in &self.live {
             s.push_str(&format!("{id}:{}:{}:{}:{}:{}:{}:{}:{}:{}:{}:{};", t.to, t.sealed, t.wire.len(), t.n_tx, t.last_tx - self.now, t.rto, t.retransmits, t.last, t.stop_tx, t.cancelled, wire::be16(&t.wire[2..4])));
         }
@@ -407,6 +410,8 @@ impl Spec {
                 (_, o) => out.push(breach("C05", "handle-liveness", "mut_request_transaction disagrees with the set of outstanding transactions", "handle iff outstanding".into(), format!("{o:?}"))),
             },
             (Act::SetRemote { key }, _) => self.remote_key = Some(*key),
+            (Act::SetLocal { key }, _) => self.local_key = Some(*key),
+            (Act::Rebuild { remote }, _) => self.remote_addr = Some(*remote),
         }
         // observers after every step
         for i in 0..N_IDS as u8 {
@@ -429,6 +434,12 @@ impl Spec {
         }
         if post.remote_creds_set != self.remote_key.is_some() {
             out.push(breach("C07", "remote-credentials-getter", "remote_credentials() disagrees with what was set", format!("{}", self.remote_key.is_some()), format!("{}", post.remote_creds_set)));
+        }
+        if post.local_creds_set != self.local_key.is_some() {
+            out.push(breach("C18", "local-credentials-getter", "local_credentials() disagrees with what was set", format!("{}", self.local_key.is_some()), format!("{}", post.local_creds_set)));
+        }
+        if post.remote_addr != self.remote_addr.map(peer) || post.local_addr != local_addr() || post.tcp != self.tcp {
+            out.push(breach("C18", "agent-identity", "transport() / local_addr() / remote_addr() are not what the agent was built with", format!("tcp={} {} remote {:?}", self.tcp, local_addr(), self.remote_addr.map(peer)), format!("tcp={} {} remote {:?}", post.tcp, post.local_addr, post.remote_addr)));
         }
         if !out.is_empty() {
             self.diverged = true;
